@@ -140,6 +140,10 @@ func CaseMain(args []string) int {
 	defer os.RemoveAll(t.WorkDir)
 	t.Case("replay", nil, func(c *C) {
 		t.Evals--
+		if rp.Kind == SteerKind {
+			RunSteered(p, t, rp.Input)
+			return
+		}
 		p.RunCase(t, rp.Kind, rp.Input)
 	})
 	out, _ := json.Marshal(t.Findings)
